@@ -178,7 +178,7 @@ func TestWorker(t *testing.T) {
 			}
 		}
 		all[res.SchedHash] = true
-		if res.Probes["nontrivial"] > 0 {
+		if res.Probes["nontrivial"] > 0 || ((prop == "C05" || prop == "C18" || prop == "C02") && res.Probes["adv-nontrivial"] > 0) || (prop == "C20" && res.Steps > 200) {
 			nontrivial[res.SchedHash] = true
 		}
 		if len(out.Samples) < 3 && len(res.Sample) > 0 {
